@@ -164,7 +164,8 @@ def run(ctx, chk):
                     chk.ok("C02.R9", unit + ":OF@1", stt)
 
     # ---- productions: NOT exactness, TEST no write-back, frames, count width
-    ov = {"memory_addr": addr_atom("m"), "byte_label": addr_atom("lb"), "word_label": addr_atom("lw")}
+    from units import address_overrides
+    ov = address_overrides(G)
     ai = arch_index(P)
 
     def machine(st):
@@ -225,7 +226,7 @@ def run(ctx, chk):
 
     # binary_logical / shift_rotate frames, TEST
     for nt in ("binary_logical", "shift_rotate"):
-        for k, p in enumerate(G.productions(nt)):
+        for nt, k, p in G.instruction_productions(nt):
             label = G.prod_label(nt, k)
             where = f"{G.g['file']}:{p['line']}"
             syms = [s["name"] for s in p["symbols"]]
